@@ -22,4 +22,14 @@ def run (c : Case) : String :=
     | none => s!"res {c.id} unsupported"
   | none => s!"res {c.id} unsupported"
 
+/-- `kind=subjoverlap`: publish, behavior, replay and async broadcast while holding `s.mu`, so the
+    callbacks of each subscriber are serialised whatever subscriber it is. The unicast subject
+    delivers AFTER releasing `s.mu` and relies on the lock of the subscriber it wraps its observer
+    in — `NewSubscriber(destination)` reuses a destination that already is a Subscriber, so behind
+    an unsafe pass-through operator (the C02 known finding) nothing serialises its deliveries. -/
+def runSubj (c : Case) : String :=
+  let unsafeVia := knownUnsafePassThrough.any (fun n => n == c.getD "via" "direct" || n == c.getD "via" "direct" ++ "WithContext")
+  if c.getD "subject" "publish" == "unicast" && unsafeVia then s!"res {c.id} expect=may-overlap grammar=ok"
+  else s!"res {c.id} expect=serialized grammar=ok"
+
 end Ro.Driver.Drivers.Overlap
